@@ -42,7 +42,7 @@ def push {β} (st : St β) (sz : Res (Option Nat)) (align : Option Nat) (isArr :
   | .ok (some s) =>
     if s = 0 ∧ isArr = true then .ok st
     else if st.2 + s ≤ usizeMax then .ok (st.1 ++ [⟨s, align, src⟩], st.2 + s)
-    else .panic "Regions::push: last_address += size"
+    else .defer   -- `last_address.checked_add(size)?`: an unrepresentable size counts as unknown
   | .defer => .defer
   | .err m => .err m
   | .panic s => .panic s
@@ -116,11 +116,11 @@ def resolve {β} (vptr : Option (PField β)) (fields : List (PField β)) (target
 /-- `util::gcd` -/
 def gcd (a b : Nat) : Nat := Nat.gcd a b
 
-/-- one step of `util::lcm`'s fold: `acc * x / gcd(acc, x)` with overflow and zero-division checks -/
+/-- one step of `util::lcm`'s fold: `acc / gcd(acc, x) * x` with overflow and zero-division checks -/
 def lcmStep (acc x : Nat) : Res Nat :=
-  if acc * x > usizeMax then .panic "util::lcm: acc * x"
-  else if Nat.gcd acc x = 0 then .panic "util::lcm: division by zero"
-  else .ok (acc * x / Nat.gcd acc x)
+  if Nat.gcd acc x = 0 then .panic "util::lcm: division by zero"
+  else if acc / Nat.gcd acc x * x > usizeMax then .panic "util::lcm: acc / gcd * x"
+  else .ok (acc / Nat.gcd acc x * x)
 
 /-- `util::lcm(regions.flat_map(alignment))` -/
 def lcmAll {β} (rs : List (Placed β)) : Res Nat :=
